@@ -145,6 +145,9 @@ def spawn_workers(pid: str, tier: str, camp: Campaign, workdir: str) -> List[Dic
     env.setdefault("HTA_VERIF", "1")
     env.setdefault("HV_TMP", os.path.join(workdir, "tmp"))
     running: List[Tuple[int, subprocess.Popen, str, str]] = []
+    started: Dict[int, float] = {}
+    wall = float(os.environ.get("HV_WALL_S", "240" if tier == "quick" else "3000"))
+    hard = float(os.environ.get("HV_HARD_S", str(2 * wall + 600)))  # a worker still alive then is hung: inconclusive, never a violation
     while pending or running:
         while pending and len(running) < max_par:
             k = pending.pop(0)
@@ -155,13 +158,24 @@ def spawn_workers(pid: str, tier: str, camp: Campaign, workdir: str) -> List[Dic
             p = subprocess.Popen(
                 [PY, "-m", "hv.run", pid, "--tier", tier, "--worker", camp.name, "--shard", str(k),
                  "--nshards", str(nshards), "--out", out],
-                cwd=VERIF_ROOT, env=env_k, stdout=open(log, "w"), stderr=subprocess.STDOUT,
+                cwd=VERIF_ROOT, env=env_k, stdout=open(log, "w"), stderr=subprocess.STDOUT, start_new_session=True,
             )
+            started[k] = time.time()
             running.append((k, p, out, log))
         time.sleep(0.05)
         still = []
         for k, p, out, log in running:
             if p.poll() is None:
+                if time.time() - started[k] > hard:
+                    try:
+                        os.killpg(p.pid, 9)
+                    except OSError:
+                        p.kill()
+                    p.wait()
+                    results.append({"shard": k, "error": f"worker still running after {hard:.0f}s (hung); killed - inconclusive",
+                                    "evaluations": 0, "classes": {}, "excluded": {}, "nontrivial_hashes": [],
+                                    "samples": [], "failure": None, "truncated": True})
+                    continue
                 still.append((k, p, out, log))
                 continue
             if os.path.exists(out):
